@@ -197,8 +197,12 @@ func (w *Wrapper) SetID(id string) {
 // Set sets the value associated to the attribute named after key.
 func (w *Wrapper) Set(key string, val any) {
 	if key == "id" {
-		id, _ := val.(string)
-		w.SetID(id)
+		// A string is written as such, whatever string type the ID field has.
+		if id, ok := val.(string); ok {
+			w.SetID(id)
+
+			return
+		}
 	}
 
 	w.setField(key, val)
